@@ -9,7 +9,7 @@ id="$1"; shift
 git -C /repo apply "$ROOT/benign/$id/patch.diff" || { echo "$id: patch does not apply"; exit 2; }
 : > "benign/$id/result.txt"
 for c in "$@"; do
-  out=$(./check "$c" quick 2>&1); rc=$?
+  out=$(VERIF_FAST=1 ./check "$c" quick 2>&1); rc=$?
   echo "$id: check $c rc=$rc" | tee -a "benign/$id/result.txt"
   if [ $rc -ne 0 ]; then echo "$out" | grep -E "VIOLATION|signature|detail|HARNESS" | head -8 | tee -a "benign/$id/result.txt"; fi
 done
